@@ -27,6 +27,12 @@ func (e *Engine) intrinsic(fr *Frame, st *State, name string, fn *ssa.Function, 
 		}
 		pt := fv.fn.Signature.Params().At(0).Type()
 		sort := e.sortOf(pt)
+		if sort == sIface && name == "GvcForall" {
+			// the interface sort contains every (dynamic type, pointer) pair including typed nil
+			// pointers: `forall c I :: c.(*T) != nil` is unsatisfiable, and as a requires clause it
+			// makes every obligation of the function vacuously provable (found on C04, see DESIGN §10)
+			e.unsupported("forall over the interface type %s ranges over typed nil values too; quantify over the elements of a slice or over a pointer type instead", pt)
+		}
 		e.nfresh++
 		bv := T{fmt.Sprintf("q%d", e.nfresh), sort}
 		e.inlineTerms++
@@ -400,10 +406,18 @@ func (e *Engine) appendModel(fr *Frame, st *State, s T, tv Val, sT, tT types.Typ
 		e.emitDecl(fmt.Sprintf("(declare-fun %s (Int) Int)", fw))
 		e.emitDecl(fmt.Sprintf("(declare-fun %s (Int) Int)", bw))
 		rb, ro := "(sbase "+res.S+")", "(soff "+res.S+")"
-		e.assume(st, T{fmt.Sprintf("(forall ((k Int)) (! (=> (and (<= %s k) (< k (+ %s %s))) (and (= (select (select %s %s) (%s k)) (select (select %s %s) k)) (= (%s k) (+ %s (- k %s))) (= (%s (%s k)) k))) :pattern ((select (select %s %s) k))))",
-			so.S, so.S, n1.S, nh.S, rb, fw, h.S, sb.S, fw, ro, so.S, bw, fw, h.S, sb.S), sBool})
-		e.assume(st, T{fmt.Sprintf("(forall ((k Int)) (! (=> (and (<= %s k) (< k (+ %s %s))) (and (= (select (select %s %s) k) (select (select %s %s) (%s k))) (= (%s k) (+ %s (- k %s))) (= (%s (%s k)) k))) :pattern ((select (select %s %s) k))))",
-			ro, ro, n1.S, nh.S, rb, h.S, sb.S, bw, bw, so.S, ro, fw, bw, nh.S, rb), sBool})
+		// the old backing array as a ground term: facts about s stated over an earlier heap
+		// version (before an append to another slice of the same element type) then meet the
+		// forward trigger through the array theory's select-over-store reasoning
+		oldArr := e.nameAlways(tSel(h, sb), "olda")
+		newArr := e.nameAlways(tSel(nh, T{rb, sRef}), "newa")
+		// (the index equations hold for every k - fw and bw are the two translations - only the
+		// element equation is restricted to the copied range; were the round-trip equation
+		// guarded too, an index whose range membership is undecided would restart the cycle)
+		e.assume(st, T{fmt.Sprintf("(forall ((k Int)) (! (and (= (%s k) (+ %s (- k %s))) (= (%s (%s k)) k) (=> (and (<= %s k) (< k (+ %s %s))) (= (select %s (%s k)) (select %s k)))) :pattern ((select %s k))))",
+			fw, ro, so.S, bw, fw, so.S, so.S, n1.S, newArr.S, fw, oldArr.S, oldArr.S), sBool})
+		e.assume(st, T{fmt.Sprintf("(forall ((k Int)) (! (and (= (%s k) (+ %s (- k %s))) (= (%s (%s k)) k) (=> (and (<= %s k) (< k (+ %s %s))) (= (select %s k) (select %s (%s k))))) :pattern ((select %s k))))",
+			bw, so.S, ro, fw, bw, ro, ro, n1.S, newArr.S, oldArr.S, bw, newArr.S), sBool})
 		return res
 	}
 	// new backing array contents
